@@ -88,6 +88,8 @@ def real_jobs(tier):
     add([["next", 1, "hard"]], engine="xl", system="h2co", molid=[0], params=EXC, k=4, steps=4)
     fcad = dict(cad, na=1)
     add([["next", 1, "soft"]], engine="fssh", system="h2co_2", molid=[0, 1], params=FSSH, cad=fcad, steps=4, xyz=0)
+    # nonadiabatic cadence that does not divide the checkpoint step; XYZ frames between checkpoints
+    add([["next", 2, "soft"]], engine="fssh", system="h2co", molid=[0], params=FSSH, cad=dict(cad, na=3), steps=6, xyz=1)
     if tier != "quick":
         add([["scr", 2, "hard"]], engine="fssh", system="h2co", molid=[0], params=FSSH, cad=fcad, steps=4, damp=30.0)
         add([["next", 1, "soft"], ["next", 3, "hard"]], engine="basic", system="h2co", molid=[0], params=EXC, cad=exc_cad, steps=6)
